@@ -61,6 +61,8 @@ pub fn err_outcome(e: Error) -> Outcome {
 pub enum OpKind {
 	Call,
 	Subscribe,
+	/// `subscribe_to_method`: a handler for plain notifications of one method name
+	Register,
 	Batch(usize),
 	Notify,
 }
@@ -126,6 +128,24 @@ impl World {
 			}
 		});
 		self.ops.push(Op { kind: OpKind::Subscribe, methods: vec![method], handle, wire_ids: vec![None], stamped: vec![None], answered_before_poison: false, abandoned: false });
+	}
+
+	pub fn spawn_register(&mut self) {
+		let k = self.ops.len();
+		let method = format!("plain{k}");
+		let c = self.mc.client.clone();
+		let m = method.clone();
+		let subs = self.subs.clone();
+		let handle = tokio::spawn(async move {
+			match c.subscribe_to_method::<Value>(&m).await {
+				Ok(s) => {
+					subs.lock().push(s);
+					Outcome::NotifyOk
+				}
+				Err(e) => err_outcome(e),
+			}
+		});
+		self.ops.push(Op { kind: OpKind::Register, methods: vec![method], handle, wire_ids: vec![], stamped: vec![], answered_before_poison: false, abandoned: false });
 	}
 
 	pub fn spawn_batch(&mut self, n: usize) {
@@ -502,7 +522,7 @@ impl SubCheck for Routing {
 					continue;
 				}
 				match &op.kind {
-					OpKind::Notify => {}
+					OpKind::Notify | OpKind::Register => {}
 					OpKind::Call | OpKind::Subscribe => {
 						let stamped = op.stamped[0].clone();
 						match (stamped, out) {
